@@ -182,6 +182,40 @@ def check_lnot(inp):
     d = equivalent(('not', t), rt, sc)
     if d:
         return Failure('lnot', inp, 'equivalent to not f', {'result': list(rt), 'differs_on': d})
+    if logic == 'CTLS' and t[0] == 'not':
+        # the same formula assembled ACROSS languages: CTL* nodes on top of CTL / LTL formula objects
+        # (CTL.Formula and LTL.Formula are CTL* formulas; the CTL* constructors take them as they are),
+        # the boundary after the first, second, ... negation
+        depth_, x = 0, t
+        while x[0] == 'not':
+            depth_, x = depth_ + 1, x[1]
+        for sib in ('CTL', 'LTL'):
+            for cut in range(1, depth_ + 1):
+                inner = t
+                for _ in range(cut):
+                    inner = inner[1]
+                if fm.kind(sib, inner) is None:
+                    continue
+                try:
+                    mixed = fm.to_lib(inner, fm.lang(sib))
+                    for _ in range(cut):
+                        mixed = L.Not(mixed)
+                    if fm.structure(mixed) != t:
+                        continue
+                    rt2 = fm.structure(LNot(mixed))
+                except TypeError:
+                    continue                          # a library that refuses the mix puts it outside the domain
+                except Exception as e:
+                    return Failure('lnot', inp, 'a formula', 'raised %s: %s' % (type(e).__name__, str(e)[:150]),
+                                   'CTL* negations on top of a %s object, boundary after %d negation(s)' % (sib, cut))
+                if rt2[0] == 'not' and rt2[1][0] == 'not':
+                    return Failure('lnot', inp, 'no two leading negations', list(rt2),
+                                   'CTL* negations on top of a %s object, boundary after %d negation(s)' % (sib, cut))
+                if rt2 != rt:
+                    d = equivalent(('not', t), rt2, sc)
+                    if d:
+                        return Failure('lnot', inp, 'equivalent to not f', {'result': list(rt2), 'differs_on': d},
+                                       'CTL* negations on top of a %s object' % sib)
     return None
 
 
@@ -240,6 +274,12 @@ def enum_shard(st, shard, nshards, payload):
         if logic in payload.get('deep_logics', ()):
             forms = forms + deep
         # a repeated one-operator subformula inside every context of <= 2 operators (strided)
+        if logic == 'CTLS':
+            for base in (fm.P, ('E', ('X', fm.Q)), ('A', ('G', fm.P)), ('G', fm.P)):
+                x = base
+                for _ in range(5):
+                    x = ('not', x)
+                    forms = forms + [x]
         cs = payload.get('ctx_stride', 0)
         if cs:
             forms = forms + {'CTL': lambda: fm.ctl_context(cs * 2), 'LTL': lambda: fm.ltl_context()[::cs],
